@@ -127,6 +127,7 @@ class QSpec:
     new_cid_len: int = -1         # -1: same length as the server's CID
     new_cid_prefix: str = ""      # "" | "extend" (new CID = old CID + more bytes) | "truncate" (new CID = a proper prefix of the old one)
     client_new_cid_at: int = -1   # same, issued by the client, server switches
+    late_hs_ack: bool = False     # after the server's HANDSHAKE_DONE the capture still shows a client datagram Handshake(ACK) + 1-RTT(STREAM) that was in flight (capture near the server)
     crypto_retx: str = ""         # "" | "ch" | "sh" | "both": the ClientHello Initial(s) / the server's Initial+Handshake flight are sent a second time (loss recovery: same CRYPTO offsets, new packet numbers)
     new_cid_retire: int = 0       # Retire Prior To of the NEW_CONNECTION_ID frames (0, or 1 = "retire the CID you are using now")
     new_cid_lag: int = 0          # the peer's next k packets were already in flight: they still carry the old CID, the switch happens afterwards
@@ -250,7 +251,7 @@ def build_qconn(spec: QSpec, rng) -> QConn:
 
     def pn(d, s):
         space = sp[(d, s)]
-        n = space.next + (rng.randrange(0, spec.pn_gap + 1) if spec.pn_gap else 0)
+        n = space.next + (rng.randrange(0, spec.pn_gap + 1) if spec.pn_gap and space.largest is not None else 0)      # (the first number of a space must fit in 4 bytes)
         largest = 0 if space.largest is None else space.largest
         need = 1
         while need <= 4 and rfc_decode(largest, n & ((1 << 8 * need) - 1), 8 * need) != n:
@@ -370,10 +371,13 @@ def build_qconn(spec: QSpec, rng) -> QConn:
         fs.append(("crypto", coff, t))
         coff += len(t)
     emit("s", [mk_short(cur["s"], "s", c_dcid_used_by_server, fs, 0)])
+    if spec.late_hs_ack:
+        emit("c", [mk_long(K["chs"], 2, "hs", "c", s_scid, c_scid, [("raw",) + qf.ack(w, sp[("s", "hs")].largest or 0, 0, 0)]),
+                   mk_short(cur["c"], "c", s_dcid_used_by_client, [("stream", 0, rb(rng.randrange(1, 300)), {"off": 5000, "fin": False})], 0)])
 
     # ---- application history
     sent_in_phase = {"c": True, "s": True}     # both sides have sent a 1-RTT packet in generation 0 (client: maybe not yet)
-    sent_in_phase["c"] = spec.coalesce_1rtt_with_hs
+    sent_in_phase["c"] = spec.coalesce_1rtt_with_hs or spec.late_hs_ack
     updates_done = []
     pending = {"c": None, "s": None}
     for idx, (d, packets) in enumerate(spec.app):
@@ -534,7 +538,7 @@ def random_qspec(rng, napp=None, avoid=()):
     for d in "cs":
         for sp_ in ("init", "hs", "app"):
             if rng.random() < 0.3:
-                s.pn_start[(d, sp_)] = rng.choice([1, 2, 255, 256, 65535, 1 << 20, (1 << 31) - 5, rng.randrange(0, 1 << 31)])
+                s.pn_start[(d, sp_)] = rng.choice([1, 2, 255, 256, 65535, 1 << 20, (1 << 31) - 5, rng.randrange(0, 1 << 31), (1 << 32) - rng.choice([1, 2, 40, 300])])     # the last: the space crosses 2^32 while the connection runs
     s.varint_policy = rng.choice(["min", "min", "rand", 2, 4, 8])
     w = qf.W(rng, s.varint_policy)
     n = napp if napp is not None else rng.choice([0, 1, 2, 5, 12, 30])
@@ -576,6 +580,16 @@ def random_qspec(rng, napp=None, avoid=()):
     s.nst = rng.choice([0, 0, 1, 2])
     s.token = rng.randbytes(rng.choice([0, 0, 16]))
     s.crypto_retx = rng.choice(["", "", "", "ch", "sh", "both"])
+    s.late_hs_ack = rng.random() < 0.25
+    if 0 < s.odcid_len < 4:
+        # sender validity: an observer keeps the original DCID among the server's connection IDs; a 1..3-byte one that is LONGER than the ID the client really
+        # uses afterwards would match the bytes behind it with probability 2^-8..2^-24 per packet, and then nobody without the server's state could tell where
+        # the packet number starts (same reasoning as for prefix-related connection IDs). So the server's IDs are at least as long as such a short original DCID.
+        s.s_scid_len = max(s.s_scid_len, s.odcid_len)
+        if s.new_cid_prefix == "truncate":
+            s.new_cid_prefix = ""
+        if 0 <= s.new_cid_len < s.odcid_len:
+            s.new_cid_len = -1
     return s
 
 
